@@ -157,3 +157,85 @@ package common
 //@ func (s NativeScript) Hash() (h)
 //@   props C29
 //@   ensures def: h == H224(cat(byteseq(0), seq(s.DecodeStoreCbor.cborData)))
+
+// C28: every supplied vkey witness signature verifies against the transaction id.
+//@ pureiface Transaction.Witnesses Transaction.Inputs Transaction.Hash TransactionWitnessSet.Vkey TransactionWitnessSet.Bootstrap TransactionOutput.Address
+//@ func VerifyVKeySignature(pubKey, sig, msg) (err)
+//@   props C28
+//@   pure
+//@   ensures ok: err == nil ==> len(pubKey) == 32 && len(sig) == 64 && ed25519.sigValid(seq(pubKey), seq(msg), seq(sig))
+
+//@ func ValidateVKeyWitnesses(tx) (err)
+//@   props C28
+//@   let vk = tx.Witnesses().Vkey()
+//@   ensures all: err == nil && tx.Witnesses() != nil ==> forall j int :: 0 <= j && j < len(vk) ==>
+//@       len(vk[j].Vkey) == 32 && len(vk[j].Signature) == 64 && ed25519.sigValid(seq(vk[j].Vkey), seq(tx.Hash()), seq(vk[j].Signature))
+//@   loop 0 invariant rangeindex < len(vk) && forall j int :: 0 <= j && j <= rangeindex ==>
+//@       len(vk[j].Vkey) == 32 && len(vk[j].Signature) == 64 && ed25519.sigValid(seq(vk[j].Vkey), seq(tx.Hash()), seq(vk[j].Signature))
+
+// C28: the Byron address root of a bootstrap witness: Blake2b-224 of SHA3-256 of
+// 83 00 82 00 58 40 || pubkey || chain code || attributes.
+//@ spec func byronRoot(pk Seq, cc Seq, at Seq) Blake2b224 = H224(seq(sha3.SHA3(cat(byteseq(131), byteseq(0), byteseq(130), byteseq(0), byteseq(88), byteseq(64), pk, cc, at))))
+//@ func computeByronAddressRoot(pubkey, chainCode, attrBytes) (root, err)
+//@   props C28
+//@   pure
+//@   ensures sizes: err == nil ==> len(pubkey) == 32 && len(chainCode) == 32
+//@   ensures root: err == nil ==> root == byronRoot(seq(pubkey), seq(chainCode), seq(attrBytes))
+
+// C28: every resolvable key-locked (non-Byron) input is owned by a key whose verification key is among
+// the vkey witnesses: its payment key hash is Blake2b-224 of some witness's key.
+//@ spec func keyLocked(ls LedgerState, in TransactionInput) bool = ls.UtxoById$1(in) == nil && ls.UtxoById$0(in).Output != nil &&
+//@     dyn(ls.UtxoById$0(in).Output.Address().paymentPayload) == type(AddressPayloadKeyHash) && ls.UtxoById$0(in).Output.Address().addressType != 8
+//@ spec func payHash(ls LedgerState, in TransactionInput) Blake2b224 = unbox(ls.UtxoById$0(in).Output.Address().paymentPayload, type(AddressPayloadKeyHash)).Hash
+//@ spec func byronLocked(ls LedgerState, in TransactionInput) bool = ls.UtxoById$1(in) == nil && ls.UtxoById$0(in).Output != nil &&
+//@     dyn(ls.UtxoById$0(in).Output.Address().paymentPayload) == type(AddressPayloadKeyHash) && ls.UtxoById$0(in).Output.Address().addressType == 8
+// vkOwned: some vkey witness of tx carries the verification key whose Blake2b-224 hash is h.
+//@ spec opaque func vkOwned(tx Transaction, h Blake2b224) bool = tx.Witnesses() != nil &&
+//@     exists j int :: 0 <= j && j < len(tx.Witnesses().Vkey()) && H224(seq(tx.Witnesses().Vkey()[j].Vkey)) == h
+// bootOwned: some bootstrap witness of tx has a 32-byte key and chain code whose Byron address root is h.
+//@ spec opaque func bootOwned(tx Transaction, h Blake2b224) bool = tx.Witnesses() != nil &&
+//@     exists b int :: 0 <= b && b < len(tx.Witnesses().Bootstrap()) && len(tx.Witnesses().Bootstrap()[b].PublicKey) == 32 && len(tx.Witnesses().Bootstrap()[b].ChainCode) == 32 &&
+//@         byronRoot(seq(tx.Witnesses().Bootstrap()[b].PublicKey), seq(tx.Witnesses().Bootstrap()[b].ChainCode), seq(tx.Witnesses().Bootstrap()[b].Attributes)) == h
+//@ func ValidateInputVKeyWitnesses(tx, ls) (err)
+//@   props C28
+//@   attr maxpaths 20000
+//@   let ins = tx.Inputs()
+//@   let vk = tx.Witnesses().Vkey()
+//@   ensures owners: err == nil ==> forall i int :: 0 <= i && i < len(ins) && keyLocked(ls, ins[i]) ==> vkOwned(tx, payHash(ls, ins[i]))
+//@   ensures byron: err == nil ==> forall i int :: 0 <= i && i < len(ins) && byronLocked(ls, ins[i]) ==>
+//@       vkOwned(tx, payHash(ls, ins[i])) || bootOwned(tx, payHash(ls, ins[i]))
+//@   loop 0 invariant rangeindex < len(vk) && forall k Blake2b224 :: k in provided ==> exists j int :: 0 <= j && j <= rangeindex && H224(seq(vk[j].Vkey)) == k
+//@   loop 1 invariant rangeindex < len(ins)
+//@   loop 1 invariant forall k Blake2b224 :: k in provided ==> vkOwned(tx, k)
+//@   loop 1 invariant forall i int :: 0 <= i && i <= rangeindex && keyLocked(ls, ins[i]) ==> vkOwned(tx, payHash(ls, ins[i]))
+//@   loop 1 invariant forall i int :: 0 <= i && i <= rangeindex && byronLocked(ls, ins[i]) ==>
+//@       vkOwned(tx, payHash(ls, ins[i])) || bootOwned(tx, payHash(ls, ins[i]))
+
+// C28: every collateral input resolves, is key-locked, and is owned by a key among the vkey witnesses.
+//@ func ValidateCollateralVKeyWitnesses(tx, ls) (err)
+//@   props C28
+//@   attr maxpaths 20000
+//@   let col = tx.Collateral()
+//@   let vk = tx.Witnesses().Vkey()
+//@   ensures owners: err == nil ==> forall i int :: 0 <= i && i < len(col) ==>
+//@       tx.Witnesses() != nil && ls.UtxoById$1(col[i]) == nil && dyn(ls.UtxoById$0(col[i]).Output.Address().paymentPayload) == type(AddressPayloadKeyHash) &&
+//@       exists j int :: 0 <= j && j < len(vk) && H224(seq(vk[j].Vkey)) == payHash(ls, col[i])
+//@   loop 0 invariant rangeindex < len(vk) && forall k Blake2b224 :: k in hashes ==> exists j int :: 0 <= j && j <= rangeindex && H224(seq(vk[j].Vkey)) == k
+//@   loop 1 invariant rangeindex < len(col)
+//@   loop 1 invariant forall k Blake2b224 :: k in hashes ==> exists j int :: 0 <= j && j < len(vk) && H224(seq(vk[j].Vkey)) == k
+//@   loop 1 invariant forall i int :: 0 <= i && i <= rangeindex ==>
+//@       ls.UtxoById$1(col[i]) == nil && dyn(ls.UtxoById$0(col[i]).Output.Address().paymentPayload) == type(AddressPayloadKeyHash) &&
+//@       exists j int :: 0 <= j && j < len(vk) && H224(seq(vk[j].Vkey)) == payHash(ls, col[i])
+
+// C28: every required signer has a vkey witness.
+//@ pureiface Transaction.RequiredSigners
+//@ func ValidateRequiredVKeyWitnesses(tx) (err)
+//@   props C28
+//@   let rs = tx.RequiredSigners()
+//@   let vk = tx.Witnesses().Vkey()
+//@   ensures signers: err == nil ==> forall i int :: 0 <= i && i < len(rs) ==> vkOwned(tx, rs[i])
+//@   loop 0 invariant len(required) >= len(rs) && forall i int :: 0 <= i && i < len(rs) ==> required[i] == rs[i]
+//@   loop 1 invariant rangeindex < len(vk) && forall k Blake2b224 :: k in vkeyHashes ==> exists j int :: 0 <= j && j <= rangeindex && H224(seq(vk[j].Vkey)) == k
+//@   loop 2 invariant rangeindex < len(required)
+//@   loop 2 invariant forall k Blake2b224 :: k in vkeyHashes ==> vkOwned(tx, k)
+//@   loop 2 invariant forall i int :: 0 <= i && i < len(rs) && i <= rangeindex ==> vkOwned(tx, rs[i])
